@@ -241,6 +241,19 @@ def gen_geo_seam_case(R):
     return {"ref": ref, "pts": pts}
 
 
+def gen_geo_highlat_case(R):
+    """sites at high latitudes (still 18 degrees and more from the poles) with targets several kilometres due east / west and
+    a couple of kilometres north / south: the degree of longitude is short there, so a few kilometres are tenths of a degree"""
+    lat = R.choice([-1, 1]) * R.uniform(62.0, 72.0)
+    ref = (lat, R.uniform(-179, 179), R.choice([0.0, 50.0]))
+    pts = []
+    for _ in range(R.randint(3, 7)):
+        dlon = R.choice([-1, 1]) * R.uniform(0.02, 0.2)           # up to ~10 km at 62 degrees, ~7 km at 72
+        dlat = R.choice([0.0, 0.0, R.uniform(-0.015, 0.015)])     # up to ~1.7 km
+        pts.append((ref[0] + dlat, ref[1] + dlon, R.choice([ref[2], 0.0, 120.0])))
+    return {"ref": ref, "pts": pts}
+
+
 def great_circle(a, b):
     la1, lo1, la2, lo2 = map(math.radians, (a[0], a[1], b[0], b[1]))
     h = math.sin((la2 - la1) / 2) ** 2 + math.cos(la1) * math.cos(la2) * math.sin((lo2 - lo1) / 2) ** 2
